@@ -10,7 +10,9 @@ def gen(ctx):
 
 def correspondence(ctx):
     n, nops, malformed, catalogue = (18, 300), [6, 15, 30], 0.25, True
-    msv_lib.corr_suite(ctx, 'msv-c02', ctx.n(*n), nops, malformed, catalogue)
+    import random
+    fam = msv_lib.family_traces(random.Random(ctx.rng.randrange(1 << 30)), full=False, sample=ctx.n(10, 60))
+    msv_lib.corr_suite(ctx, 'msv-c02', ctx.n(*n), nops, malformed, catalogue, scripted=fam)
 
 
 def oracle(ctx):
